@@ -1007,6 +1007,286 @@ class CtorGrid(Component):
         op, cf = parse_case(case)
         return ['outcome=' + (impl.split()[0] + (':' + impl.split()[1] if impl.startswith('err') else '')), 'total=' + ('yes' if 'total' in cf else 'no')]
 
+
+# ------------------------------------------------------------------------------------------------
+# metadata components (C10, C11, C12, C13, C20)
+# ------------------------------------------------------------------------------------------------
+import metagen
+
+def _canon_err(v):
+    return v.split(':')[0]
+
+def walk_block_sizes(b):
+    """body sizes of the blocks in a serialised metadata section"""
+    out = []; i = 4
+    while i + 4 <= len(b):
+        n = int.from_bytes(b[i + 1:i + 4], 'big'); out.append(n); i += 4 + n
+        if b[i - 4 - n] & 0x80:
+            break
+    return out, i
+
+class BlocksWrite(Component):
+    name = 'blocksw'
+    ops = ('blocksw',)
+    profiles = ('release', 'checked')
+    def cases(self, rng, tier, boost):
+        out = ['blocksw list=' + l for l in (metagen.SIZE_LIMIT_LISTS if tier == 'thorough' else metagen.SIZE_LIMIT_LISTS[4:5] + metagen.SIZE_LIMIT_LISTS[-1:])]
+        # every block kind alone at its extremes, then random lists
+        for kind in 'PATVIQC':
+            for _ in range(self.budget(tier, boost, 12, 300)):
+                out.append('blocksw list=' + metagen.streaminfo_lit(rng) + ';' + metagen.optional_block_lit(rng, kind))
+        for cdda in (True, False):
+            for _ in range(self.budget(tier, boost, 3, 40)):
+                out.append('blocksw list=' + metagen.streaminfo_lit(rng) + ';' + metagen.big_cue_struct(rng, cdda))
+        for _ in range(self.budget(tier, boost, 150, 6000)):
+            out.append('blocksw list=' + metagen.block_list(rng))
+        return out
+    def oracle(self, case, impl, profile):
+        h, cls, f = parse_outcome(impl)
+        if h == 'panic':
+            return (f'blocksw:{profile}:panic:{cls}', f'writing or re-reading a block list panicked ({profile}): {cls}')
+        if h == 'ok':
+            rb = f.get('readback', '')
+            if rb != 'equal':
+                return ('blocksw:readback:' + _canon_err(rb), f'the writer accepted the list but it reads back as {rb[:160]}')
+            by = f.get('bytes', '')
+            if not by.startswith('#') and by != '-':
+                sizes, _ = walk_block_sizes(bytes.fromhex(by))
+                rep = [x.split('/') for x in f.get('sizes', '').split(',')]
+                if [str(n) for n in sizes] != [r[0] for r in rep]:
+                    return ('blocksw:size-report', f'reported sizes {f.get("sizes")} but wrote bodies of {sizes}')
+                if any(r[1] != str(int(r[0]) + 4) for r in rep if r[0] != 'none'):
+                    return ('blocksw:total-size-report', f'total_size is not bytes+4: {f.get("sizes")}')
+        return None
+    def nontrivial(self, case, impl):
+        return impl.startswith('ok')
+    def classify(self, case, impl):
+        op, cf = parse_case(case)
+        kinds = ''.join(sorted(set(l[0] for l in cf.get('list', '').split(';') if l)))
+        h, cls, f = parse_outcome(impl)
+        return ['outcome=' + (h + (':' + cls.split('(')[0] if h == 'err' else ''))] + ['has=' + k for k in kinds]
+
+class BlocksRead(Component):
+    name = 'blocksr'
+    ops = ('blocksr',)
+    profiles = ('release', 'checked')
+    def cases(self, rng, tier, boost):
+        out = []
+        for _ in range(self.budget(tier, boost, 400, 20000)):
+            b = metagen.section(rng)
+            if rng.random() < 0.7:
+                b = metagen.damage(rng, b)
+            out.append(f'blocksr bytes={b.hex() or "00"} alloc=1')
+        return out
+    def oracle(self, case, impl, profile):
+        op, cf = parse_case(case)
+        h, cls, f = parse_outcome(impl)
+        if h == 'panic':
+            return (f'blocksr:{profile}:panic:{cls}', f'reading a metadata section panicked ({profile}): {cls}')
+        n = len(cf.get('bytes', '')) // 2
+        if 'peak' in f and int(f['peak']) > 64 * n + (1 << 16):
+            return ('blocksr:alloc', f'reading {n} bytes of metadata allocated {f["peak"]} bytes')
+        if h == 'ok':
+            rw = f.get('rewritten', '')
+            if rw.startswith(('ERR', 'REREAD')):
+                return ('blocksr:rewrite:' + _canon_err(rw), f'the reader accepted the bytes but writing them again gives {rw[:120]}')
+        return None
+    def classify(self, case, impl):
+        h, cls, f = parse_outcome(impl)
+        return ['outcome=' + (h + (':' + cls.split('(')[0] if h == 'err' else ''))]
+
+def ranges_of_literal(lit):
+    p = lit.split(':')
+    starts = []
+    for t in (p[4].split(',') if p[4] != '-' else []):
+        q = t.split('.')
+        idx = [tuple(int(x) for x in i.split('/')) for i in q[5].split('+')]
+        one = [o for o, n in idx if n == 1][0]
+        starts.append(int(q[0]) + one)
+    starts.append(int(p[5].split('.')[0]))
+    return ','.join(f'{a}-{b}' for a, b in zip(starts, starts[1:])) or '-'
+
+class CueText(Component):
+    name = 'cuetext'
+    ops = ('cuetext',)
+    profiles = ('release', 'checked')
+    def cases(self, rng, tier, boost):
+        out = []
+        for _ in range(self.budget(tier, boost, 300, 15000)):
+            wf = rng.random() < 0.55
+            total, text, expected = metagen.cue_text(rng, wellformed=wf)
+            out.append(f'cuetext total={total} text={text.encode("utf-8").hex() or "-"}' + (f' expect={expected}' if expected else ''))
+        return out
+    def oracle(self, case, impl, profile):
+        op, cf = parse_case(case)
+        h, cls, f = parse_outcome(impl)
+        if h == 'panic':
+            return (f'cuetext:{profile}:panic:{cls}', f'importing a cue sheet text panicked ({profile}): {cls}')
+        if 'expect' in cf:
+            if h != 'ok':
+                return ('cuetext:wellformed-refused:' + cls, f'a well-formed cue sheet was refused: {impl[:100]}')
+            if f.get('cue') != cf['expect']:
+                return ('cuetext:layout', f'imported layout {f.get("cue", "")[:200]} is not the one written in the text {cf["expect"][:200]}')
+            if f.get('ranges') != ranges_of_literal(cf['expect']):
+                return ('cuetext:ranges', f'track ranges {f.get("ranges")} expected {ranges_of_literal(cf["expect"])}')
+            if f.get('reimport') != 'same':
+                return ('cuetext:reimport:' + _canon_err(f.get('reimport', '')), f'export then import gives {f.get("reimport", "")[:160]}')
+        return None
+    def nontrivial(self, case, impl):
+        return impl.startswith('ok')
+    def classify(self, case, impl):
+        op, cf = parse_case(case)
+        h, cls, f = parse_outcome(impl)
+        return ['wellformed=' + ('yes' if 'expect' in cf else 'no'), 'outcome=' + (h + (':' + cls if h == 'err' else ''))]
+
+class Accessors(Component):
+    name = 'accessors'
+    ops = ('accessors',)
+    profiles = ('release', 'checked')
+    def cases(self, rng, tier, boost):
+        out = []
+        for _ in range(self.budget(tier, boost, 300, 12000)):
+            b = metagen.section(rng)
+            if rng.random() < 0.2:
+                b = metagen.damage(rng, b)
+            out.append(f'accessors bytes={b.hex()}')
+        return out
+    def oracle(self, case, impl, profile):
+        h, cls, f = parse_outcome(impl)
+        if h == 'panic':
+            return (f'accessors:{profile}:panic:{cls}', f'an accessor on a parsed block list panicked ({profile}): {cls}')
+        return None
+    def classify(self, case, impl):
+        h, cls, f = parse_outcome(impl)
+        return ['outcome=' + h, 'cues=' + ('yes' if f.get('cues', '-') != '-' else 'no'), 'dur=' + ('none' if f.get('dur') == 'none' else 'some')]
+
+class Pictures(Component):
+    name = 'picture'
+    ops = ('picture',)
+    profiles = ('release', 'checked')
+    def cases(self, rng, tier, boost):
+        return [f'picture data={metagen.image(rng).hex() or "-"} alloc=1' for _ in range(self.budget(tier, boost, 400, 20000))]
+    def oracle(self, case, impl, profile):
+        op, cf = parse_case(case)
+        h, cls, f = parse_outcome(impl)
+        if h == 'panic':
+            return (f'picture:{profile}:panic:{cls}', f'sniffing image bytes panicked ({profile}): {cls}')
+        n = len(cf.get('data', '')) // 2
+        if 'peak' in f and int(f['peak']) > 64 * n + (1 << 16):
+            return ('picture:alloc', f'sniffing {n} bytes allocated {f["peak"]} bytes')
+        return None
+    def nontrivial(self, case, impl):
+        return impl.startswith('ok')
+    def classify(self, case, impl):
+        h, cls, f = parse_outcome(impl)
+        return ['outcome=' + (h + (':' + (f.get('mime', '') if h == 'ok' else cls)))]
+
+class UpdateHist(Component):
+    name = 'update'
+    ops = ('update',)
+    profiles = ('release',)
+    def cases(self, rng, tier, boost):
+        out = []
+        for _ in range(self.budget(tier, boost, 250, 8000)):
+            pads = rng.choice([[], [rng.choice([0, 4, 16, 40, 200])], [rng.choice([0, 8, 30]), rng.choice([0, 50])], [5, 5, 500]])
+            meta, frames = metagen.small_file(rng, pads)
+            slack = (pads[0] if pads else rng.choice([0, 10, 40]))
+            edits = '|'.join(metagen.edit_script(rng, slack) for _ in range(rng.choice([1, 1, 2, 4])))
+            out.append(f'update file={(meta + frames).hex()} edits={edits} frames={len(frames)}')
+        if tier == 'thorough':
+            # the 24-bit limit: padding that would have to grow past it, blocks that exceed it
+            meta, frames = metagen.small_file(rng, [16777000])
+            out.append(f'update file={(meta + frames).hex()} edits=app:0000002a:5|apprm,padset:16777215|padset:3,vrm|pic:3:16777300 frames={len(frames)}')
+        return out
+    def oracle(self, case, impl, profile):
+        op, cf = parse_case(case)
+        h, cls, f = parse_outcome(impl)
+        if h == 'panic':
+            return (f'update:panic:{cls}', 'update_file panicked: ' + cls)
+        if h != 'ok':
+            return None
+        steps = f.get('steps', '').split(','); lens = ints(f.get('lens', ''))
+        nfr = int(cf['frames']); file0 = bytes.fromhex(cf['file'])
+        fin = f.get('final', '')
+        if not fin.startswith('#'):
+            final = bytes.fromhex(fin) if fin != '-' else b''
+            if nfr and final[-nfr:] != file0[-nfr:]:
+                return ('update:frames-disturbed', 'the bytes from the first audio frame onward changed')
+            if all(s.startswith('ERR') for s in steps) and final != file0:
+                return ('update:failed-edit-touched-file', 'every step failed but the file changed')
+        for i, s_ in enumerate(steps):
+            if s_ == 'inplace' and lens[i + 1] != lens[i]:
+                return ('update:inplace-length', f'step {i} reported in-place but the length went {lens[i]} -> {lens[i + 1]}')
+            if s_.startswith('ERR') and lens[i + 1] != lens[i]:
+                return ('update:failed-edit-length', f'step {i} failed but the length went {lens[i]} -> {lens[i + 1]}')
+        return None
+    def classify(self, case, impl):
+        h, cls, f = parse_outcome(impl)
+        return ['step=' + _canon_err(s_) for s_ in f.get('steps', '').split(',') if s_]
+
+class Faults(Component):
+    """C13: every failure index of the underlying stream, for update_file, write_blocks and
+    encode+finalize.  Judged by the property oracle on the implementation (the model's part is the
+    buffered-writer theorem; fault cases are not replayed through the driver)."""
+    name = 'faults'
+    ops = ('update', 'blocksw', 'wr')
+    profiles = ('release',)
+    model = False
+    def cases(self, rng, tier, boost):
+        out = []
+        nscen = self.budget(tier, boost, 6, 60)
+        kinds = ['perm', 'once', 'intr', 'short']
+        for _ in range(nscen):
+            pads = rng.choice([[], [40], [200], [8, 50]])
+            meta, frames = metagen.small_file(rng, pads)
+            slack = pads[0] if pads else 10
+            edit = metagen.edit_script(rng, slack).replace('fail', 'vrm')
+            for tgt in ('orig', 'rebuilt'):
+                for k in kinds:
+                    for only in ('', 'w', 'f', 's', 'r'):
+                        for at in range(0, 14 if tier == 'quick' else 40):
+                            out.append(f'update file={(meta + frames).hex()} edits={edit} frames={len(frames)} failat={at} fkind={k} ftarget={tgt}' + (f' fonly={only}' if only else ''))
+        for _ in range(nscen):
+            bl = metagen.streaminfo_lit(rng) + ';' + ';'.join(metagen.optional_block_lit(rng, rng.choice('PAVIT')) for _ in range(rng.choice([1, 2, 3])))
+            for k in kinds:
+                for at in range(0, 30 if tier == 'quick' else 120):
+                    out.append(f'blocksw list={bl} failat={at} fkind={k}')
+        for _ in range(max(2, nscen // 2)):
+            ch = rng.choice([1, 2]); bps = rng.choice([8, 16]); n = rng.choice([20, 70, 200])
+            pcm, _shape = gen.pcm_multi(rng, n, ch, bps)
+            base = f'wr fe={rng.choice(["byte", "sample", "chan"])} ch={ch} bps={bps} rate=44100 bs={rng.choice([16, 32])} pcm={gen.join(pcm)} chunks=- ref=1 endian=le'
+            for k in kinds:
+                for only in ('', 'w', 'f', 's'):
+                    for at in range(0, 25 if tier == 'quick' else 120):
+                        out.append(base + f' failat={at} fkind={k}' + (f' fonly={only}' if only else ''))
+        return out
+    def oracle(self, case, impl, profile):
+        op, cf = parse_case(case)
+        h, cls, f = parse_outcome(impl)
+        if h == 'panic':
+            return (f'faults:{op}:panic:{cls}', f'{op} panicked under an injected I/O failure: {cls}')
+        perm = cf.get('fkind') == 'perm'
+        if op == 'update' and h == 'ok':
+            steps = f.get('steps', '').split(',')
+            if f.get('tripped') == '1' and not steps[0].startswith('ERR') and f.get('complete') != '1':
+                return (f'faults:update:success-without-delivery:{cf.get("ftarget")}:{cf.get("fonly", "any")}:{cf.get("fkind")}',
+                        f'update_file reported {steps[0]} although call {cf["failat"]} of the {cf.get("ftarget")} stream failed ({cf.get("fkind")}) and the result is incomplete')
+            if steps[0].startswith('ERR') and f.get('cleansteps', '').startswith('ERR') is False and f.get('tripped') == '0':
+                return ('faults:update:spurious-error', 'update_file failed without an injected fault having fired')
+        if op == 'blocksw':
+            if h == 'ok' and f.get('complete') != '1':
+                return (f'faults:write_blocks:success-without-delivery:{cf.get("fkind")}', f'write_blocks reported success but the sink holds an incomplete result (failure at call {cf["failat"]})')
+        if op == 'wr' and h == 'ok' and f.get('tripped') in ('1', 'true') and perm and f.get('sameasref') != 'true':
+            return ('faults:encode:success-without-delivery', f'encode+finalize reported success although call {cf["failat"]} failed permanently and the file differs from the fault-free one')
+        return None
+    def nontrivial(self, case, impl):
+        h, cls, f = parse_outcome(impl)
+        return f.get('tripped') in ('1', 'true')
+    def classify(self, case, impl):
+        op, cf = parse_case(case)
+        h, cls, f = parse_outcome(impl)
+        return [f'{op}:' + h + ':tripped=' + f.get('tripped', '?'), 'kind=' + cf.get('fkind', '')]
+
 PROPS = {}
 NOT_YET = {}
 
